@@ -8,6 +8,7 @@ C20 decode <hexbytes>                        → hex runes
 C20 lex <hexbytes>                           → <line>:<hexrunes> …     ("-" when no token)
 C20 parse <hexbytes> {| e <k> <v>} {| f <id> <name> <content-hexbytes>} {| L <runes>} {| D <runes>} {| r <dir> <class> <ref>}
                                              → ok <tree> | err <kind> <line> | panic | fuel
+C20 charge … (same arguments)                → ok <import budget charged> <nodes of the tree> | err … (readTree: no env expansion)
 C20 print … (same arguments)                 → ok <hexrunes of the canonical text> | err … | …
 ```
 -/
@@ -105,6 +106,9 @@ def handle (toks : List String) : String :=
       | ["parse", b] => match unhexBytes? b with
         | some bs => showRes (fun ns => " ".intercalate (toString ns.length :: showList ns []))
                        (readBytes e.uni e.fs e.env bs)
+        | none => "bad-op"
+      | ["charge", b] => match unhexBytes? b with
+        | some bs => showRes (fun r : List Node × Maps => s!"{r.2.cnt} {sizeL r.1}") (readTree e.uni e.fs (decodeUtf8 bs))
         | none => "bad-op"
       | ["print", b] => match unhexBytes? b with
         | some bs => showRes (fun ns => ofStr (printList ns)) (readBytes e.uni e.fs e.env bs)
